@@ -29,12 +29,14 @@ import pyref
 import refsweep
 from core import Stream, hexs, unhex
 from props import c11          # generators of the expression fragment the Lean reference parser covers
+from props import prog         # PROG's corpus, generators and attachment rewriting (whole programs)
+import shapes
 
 warnings.simplefilter("ignore")
 
 ID = "C02"
 DESIGN_REF = "DESIGN.md section 5, C02; design/C02.md; design/REFTOOLS.md"
-LEAN_TARGETS = ["PV.C02.Thm", "PV.C02.RThm"]
+LEAN_TARGETS = ["PV.C02.Thm", "PV.C02.RThm", "PV.C02.RProgThm"]
 DRIVER = "drv_c02"
 HARNESS = {"bin": "pvh_c01", "features": "all-ranges"}
 THEOREMS = [
@@ -59,76 +61,112 @@ THEOREMS = [
     "PV.C02.namedexpr_witness",
     "PV.C02.lambda_empty_arguments_witness",
     "PV.C02.fstring_piece_in_concatenation_witness",
+    # about the model of range computation for whole programs (ranged twin of the reference program parser PV.Prog)
+    "PV.C02.parseRProgramFuel_erase",
+    "PV.C02.parseRProgram_erase",
+    "PV.C02.parseRProgramA_eq",
+    "PV.C02.tiledP_of_lexer",
+    "PV.C02.parseRProgram_rangesOk_partial",
+    "PV.C02.parseRProgram_extent",
+    "PV.C02.compound_end_semicolon_witness",
+    "PV.C02.match_subject_tuple_witness",
+    "PV.C02.def_argwithdefault_paren_witness",
+    "PV.C02.with_items_regression",
 ]
 TRUSTED = [
     "Lean 4.33.0 kernel; axioms limited to propext, Classical.choice, Quot.sound",
-    "fidelity of the hand-written model PV.C02.parseR (lean/PV/C02/RParse.lean: which cursor positions each grammar "
-    "action of python.lalrpop / function.rs / string.rs takes its range from), as sampled by the correspondence "
-    "streams ranged-parser-model-* (byte-identical ranged trees on ~97k / ~400k expression sources per run, 0 "
-    "disagreements); the LR automaton itself is not modelled, the model is a recursive-descent twin of C11's parseRef",
-    "the token VALUES handed to the model come from PV.C11.lex (tied to lexer.rs by the C11 and C02 streams), the token "
-    "SPANS from the real lexer (attachment of each request); that real spans tile the source is proved for the lexer "
-    "MODEL (C05) and bridged by tiled_of_lexer for spans only",
-    "for everything outside the expression fragment (statements, patterns, type parameters, decorators, f-string "
-    "replacement fields in the theorems): the parser is NOT modelled; its trees are inputs of the Lean predicate "
-    "`rangesOk` and of the Python oracle",
+    "fidelity of the hand-written models PV.C02.parseR (lean/PV/C02/RParse.lean, expressions) and PV.C02.parseRProgram "
+    "(lean/PV/C02/RProg.lean, whole programs): which cursor positions each grammar action of python.lalrpop / "
+    "function.rs / string.rs takes its range from (`@L` / `@R` captures and the derived ends `body.last().end()`, "
+    "`default.end()`, `subjects.first().start()` …), as sampled by the correspondence streams ranged-parser-model-* "
+    "(~97k / ~400k expression sources per run) and ranged-program-model-* (~14k / ~80k programs per run: PROG's "
+    "corpus, directed shapes, generated programs with layout noise in all three modes, stdlib files), byte-identical "
+    "ranged trees, 0 disagreements; the LR automaton itself is not modelled, the models are recursive-descent twins of "
+    "C11's parseRef and of PROG's parseProgram (to which they erase: parseR_erase, parseRProgram_erase)",
+    "expression requests: the token VALUES handed to the model come from PV.C11.lex (tied to lexer.rs by the C11 and C02 "
+    "streams), the token SPANS from the real lexer; program requests: token values AND spans are the real lexer's "
+    "(after the soft-keyword pass, pvh_c01 `rtoks`), string tokens decoded by PV.C11.Lexer's model of string.rs, "
+    "`\\N{…}` escapes rewritten like PROG's attachments; that real spans tile the source is proved for the lexer MODEL "
+    "(C05) and bridged by tiled_of_lexer / tiledP_of_lexer for spans only",
+    "the model ranges the empty Arguments node of a parameterless lambda at the END of the `lambda` token where the action "
+    "hard-codes `location + TextSize::of(\"lambda\")`: equal because the lexer's keyword token is exactly its six bytes "
+    "(sampled by the streams)",
+    "f-string replacement fields in the theorems: the parser model computes their ranges and the streams compare them, the "
+    "structural theorems exclude trees with f-string pieces",
     "CPython 3.11.7 lineno/col_offset/end_* converted to byte offsets (tools/pyref.py) as the reference extent of "
     "statements, expressions, patterns, parameters, keywords, aliases and handlers",
     "tools/props/c02.py (oracle: structural rules, extent rules for the kinds CPython does not position), "
-    "tools/props/c11.py (generators), tools/gen_program.py, tools/refsweep.py, harness/src/astdump.rs, "
-    "harness/src/bin/pvh_c01.rs, lean/Drv/C02.lean, lean/PV/C02/Fwd.lean (proof-producing tactic; its output is "
-    "kernel-checked)",
+    "tools/props/c11.py, tools/props/prog.py (generators, corpus, attachment rewriting), tools/shapes.py, "
+    "tools/gen_program.py, tools/refsweep.py, harness/src/astdump.rs, harness/src/bin/pvh_c01.rs, lean/Drv/C02.lean, "
+    "lean/Drv/C02Prog.lean, lean/PV/C02/Fwd.lean (proof-producing tactic; its output is kernel-checked), "
+    "tools/c02_gen_nodes.py (generator of lean/PV/C02/RProgSoundNodes.lean, whose output Lean checks)",
 ]
 PARTIAL = [
     "proved (unbounded, for the MODEL): for the whole expression fragment except f-string pieces (`plain`): every tree "
     "parseR returns for tiled token spans satisfies all five structural clauses of the property "
-    "(parseR_rangesOk_partial, parseRExpression_rangesOk_partial; parameter defaults included since /repo 'fix: an "
-    "ArgWithDefault with a default ends at the end of the default': argwithdefault_regression); the statement for "
-    "EVERY tree (parseR_rangesOk_full) is stated, not proved: f-string pieces",
-    "proved: the range of every node returned by a nonterminal of the expression chain is the span of the tokens "
-    "consumed, up to parentheses that are returned through and the NamedExpr deviation (parseR_extent, "
-    "parseR_extent_nonterminals); the statement without that deviation is refuted (parseR_extent_fails: listed "
-    "finding namedexpr-range-excludes-value-parentheses); equality with CPython's extents is judged per input by "
-    "the oracle, the deviations of the fragment are reproduced by kernel-checked witnesses (genexp, lambda "
-    "arguments, f-string pieces in a concatenation)",
-    "not proved: trees containing f-string pieces (JoinedStr / FormattedValue: the model computes their ranges and the "
-    "streams compare them, but the theorems exclude them: the span table of a replacement field's inner tokens is "
-    "not shown to tile the source); the listed finding fstring-field-range-after-crlf lies outside the model's lexer "
-    "domain (no CR)",
-    "not modelled: statements, patterns, type parameters, with-items, handlers, decorators, Module/Interactive mode: "
-    "for these the check only EVALUATES rangesOk and the CPython / extent oracle per input (generated programs over "
-    "every form and layout, the CPython stdlib)",
-    "the bridge tiled_of_lexer relates token SPANS of the lexer model to `Tiled`; the token values of PV.Lexer.Tok and "
-    "PV.Expr.Tok are related only by correspondence streams",
+    "(parseR_rangesOk_partial, parseRExpression_rangesOk_partial); the statement for EVERY tree (parseR_rangesOk_full) "
+    "is stated, not proved: f-string pieces",
+    "proved (unbounded, for the MODEL of whole programs): for every mode, every tiled spanned token list and every "
+    "accepted program without f-string pieces, the WHOLE tree — Mod*, all 28 statement kinds, 8 pattern kinds, "
+    "handlers, match cases, aliases, with-items, type parameters, Arguments / ArgWithDefault / Arg, keywords, "
+    "comprehensions, expressions — passes rangesOk: inside the input, on character boundaries, start <= end, parents "
+    "enclose children (decorators exempt, as in the property), list siblings ordered and disjoint "
+    "(parseRProgram_rangesOk_partial, by induction over all functions of the program parser; nothing of the grammar is "
+    "left out); the statement for every tree (parseRProgram_rangesOk_full) is stated, not proved: f-string pieces",
+    "proved: erasing the ranges of parseRProgram gives exactly PV.Prog.parseProgram (parseRProgram_erase), so PROG's "
+    "theorems (totality, fuel monotonicity, layout freedom, printer round trip) transfer to the ranged parser's trees",
+    "proved: extents — every node returned by a nonterminal of the expression chain is ranged by the tokens consumed, up to "
+    "returned-through parentheses and the NamedExpr deviation (parseR_extent, parseR_extent_nonterminals; refuted "
+    "without the deviation: parseR_extent_fails); every SMALL statement is ranged exactly by the tokens it consumed; "
+    "every COMPOUND statement starts at the start of one of its own tokens and ends at the end of a token it consumed, "
+    "as do statement lines / suites (lastEnd), handler lists and case lists (parseRProgram_extent)",
+    "not proved about extents of the program level (stated in design/C02.md): that the start token of an undecorated "
+    "compound statement is its FIRST token and that its end is the end of its last statement as an equation on the "
+    "tree (both hold by construction of the model and are compared with the real parser and with CPython per input); "
+    "exact token extents of patterns, aliases, with-items, type parameters, parameters (their WINDOWS are proved: each "
+    "lies inside the tokens it was parsed from; the exact ranges are compared per input)",
+    "kernel-checked witnesses that the model reproduces the listed deviations: genexp sole argument, NamedExpr, f-string "
+    "pieces in a concatenation, parenthesised parameter default (lambda and def), compound end without the trailing "
+    "`;`, match subject tuple; regression facts of repaired findings: ArgWithDefault includes its default, with-items "
+    "of a parenthesised list, empty Arguments of a lambda",
+    "not proved: trees containing f-string pieces (JoinedStr / FormattedValue: the span table of a replacement field's "
+    "inner tokens is not shown to tile the source); the listed finding fstring-field-range-after-crlf is reproduced "
+    "by the program model per input (real token values) but lies outside the lexer model's domain",
+    "the bridges tiled_of_lexer / tiledP_of_lexer relate token SPANS of the lexer model to `Tiled`; token values of "
+    "PV.Lexer.Tok and PV.Expr.Tok are related only by correspondence streams",
 ]
 READY = True
-TECHNIQUE = ("Lean 4: executable model of the range computation of the expression grammar (ranged twin of C11's reference "
-             "parser) with machine-checked theorems (erasure = reference parser; every returned tree passes rangesOk, by "
-             "induction over the parser; extents = consumed token spans), tied to the real parser by byte-identical ranged "
-             "trees; plus theorems about the executable range-structure predicate evaluated on the real parser's trees "
-             "and an independent Python oracle against CPython positions over a whole-language sweep")
-LEVEL_TEXT = ("Machine-checked Lean 4, for every input and fuel: (1) erasing the ranges computed by the model parseR gives "
-              "exactly the reference expression parser parseRef (C11), so acceptance and trees coincide; (2) for token "
-              "spans that tile the source (proved of the lexer model by C05, bridged by tiled_of_lexer) every tree "
-              "without f-string pieces that parseR returns satisfies all structural clauses of the property (inside the "
-              "input, on UTF-8 boundaries, start <= end, parents enclose children — parameter defaults included since the "
-              "repair of ParameterDef in /repo — list siblings ordered and disjoint); (3) the range of every node returned by a nonterminal "
-              "is the span of the tokens consumed, up to returned-through parentheses and the listed NamedExpr "
-              "deviation (refutation of the exact statement proved); (4) kernel-checked witnesses that the model "
-              "reproduces the listed deviations from CPython's extents inside the fragment; (5) theorems about the "
-              "checker rangesOk itself (what passing it guarantees for every node, slice and sibling pair). The model "
-              "is tied to the real parser (all-nodes-with-ranges build) by byte-identical ranged canonical trees on "
-              "every request of the ranged-parser-model streams (directed slot x kind enumeration, operator pairs, "
-              "parentheses and trivia at every position, multi-byte names, lambda parameter lists, comprehensions, "
-              "slices, f-strings with nested specs, concatenations, random and stdlib expressions); the real trees "
-              "are judged by an independent oracle (structure, CPython 3.11 positions, extent rules).")
-LEVEL_NOTE = ("Partial: proved for the model of the expression fragment only (f-string pieces excluded from the structural "
-              "theorem); statements, patterns, type parameters and the other modes are evaluated per input (rangesOk on "
-              "the real trees + CPython-position oracle over generated programs and the stdlib), not proved. Trusted: "
-              "fidelity of the hand-written model as sampled by the correspondence streams.")
+TECHNIQUE = ("Lean 4: executable models of the range computation of the WHOLE grammar (ranged twins of C11's reference "
+             "expression parser and of PROG's reference program parser) with machine-checked theorems (erasure = reference "
+             "parser; every returned tree passes rangesOk, by induction over the parser; extents = consumed token spans), "
+             "tied to the real parser by byte-identical ranged trees; plus theorems about the executable range-structure "
+             "predicate evaluated on the real parser's trees and an independent Python oracle against CPython positions "
+             "over a whole-language sweep")
+LEVEL_TEXT = ("Machine-checked Lean 4, for every input and fuel: (1) erasing the ranges computed by the models parseR / "
+              "parseRProgram gives exactly the reference parsers parseRef (C11) / parseProgram (PROG), so acceptance and "
+              "trees coincide; (2) for token spans that tile the source (proved of the lexer model by C05, bridged by "
+              "tiled_of_lexer / tiledP_of_lexer) every tree without f-string pieces that the models return — a single "
+              "expression or a whole Module / Interactive / Expression parse with all statement, pattern, handler, case, "
+              "alias, with-item, type-parameter and parameter nodes — satisfies all structural clauses of the property "
+              "(inside the input, on UTF-8 boundaries, start <= end, parents enclose children with the decorator "
+              "exemption, list siblings ordered and disjoint); (3) the range of every expression node returned by a "
+              "nonterminal is the span of the tokens consumed, up to returned-through parentheses and the listed NamedExpr "
+              "deviation, small statements are ranged exactly by their tokens, compound statements from one of their "
+              "tokens to the end of a token they consumed; (4) kernel-checked witnesses that the models reproduce the "
+              "listed deviations from CPython's extents; (5) theorems about the checker rangesOk itself. The models are "
+              "tied to the real parser (all-nodes-with-ranges build) by byte-identical ranged canonical trees on every "
+              "request of the ranged-parser-model streams (expressions) and the ranged-program-model streams (programs "
+              "in all three modes: PROG's corpus, directed parameter-list / with-item / rare-production shapes, generated "
+              "programs with CR / CRLF / tabs / comments / BOM / continuation lines, stdlib files); the real trees are "
+              "judged by an independent oracle (structure, CPython 3.11 positions, extent rules).")
+LEVEL_NOTE = ("Partial: f-string pieces are excluded from the structural theorems; exact extents of program-level nodes "
+              "other than small statements are proved as windows / token-aligned ends, not as equations with the token "
+              "span (compared per input). Trusted: fidelity of the hand-written models as sampled by the correspondence "
+              "streams.")
 RULE = ("distinct source texts whose every node range is judged; correspondence: (source, real tree) pairs evaluated by the "
-        "Lean predicate, and (expression source, real token spans) pairs whose ranged tree the Lean parser model computes; "
-        "non-trivial = the expression has an operator, bracket, separator or blank")
+        "Lean predicate, (expression source, real token spans) and (program source, real tokens, real spans) pairs whose "
+        "ranged tree the Lean parser models compute; non-trivial = the text has an operator, bracket, separator or blank / "
+        "more than one token")
 
 COMPOUND = {"StmtFunctionDef", "StmtAsyncFunctionDef", "StmtClassDef", "StmtFor", "StmtAsyncFor", "StmtWhile", "StmtIf",
             "StmtWith", "StmtAsyncWith", "StmtMatch", "StmtTry", "StmtTryStar", "ExceptHandlerExceptHandler"}
@@ -257,7 +295,9 @@ def extents(b, tree):
             if kind in ("ModModule", "ModInteractive", "ModExpression"):
                 # "the construct's own text": nothing but trivia (BOM, blanks, comments, line breaks,
                 # continuations) may lie in front of the start and behind the end
-                if not _LEAD_TRIVIA.match(b[:a]) or not _TRIVIA.match(b, e):
+                # (a module without any token is ranged 0..0: a BOM, which is not a token either, then lies behind it)
+                tail_from = e + 3 if e == 0 and b.startswith(b"\xef\xbb\xbf") else e
+                if not _LEAD_TRIVIA.match(b[:a]) or not _TRIVIA.match(b, tail_from):
                     bad = "only trivia may lie in front of and behind a module's range"
             elif kind == "Arguments":
                 kids = [x for f in ("posonlyargs", "args", "vararg", "kwonlyargs", "kwarg") for x in _sub_nodes(fd[f])]
@@ -510,6 +550,12 @@ def oracle(req, out):
         if k not in _RX_VERDICT:
             _RX_VERDICT[k] = judge_rexpr(req, out)
         return _RX_VERDICT[k]
+    if ws[0] == "rprog":
+        k = (req, out)
+        if k not in _RP_VERDICT:
+            known, ref, want = _RP_REFS.get(req, (False, None, True))
+            _RP_VERDICT[k] = judge_rprog(req, out, known, ref, want)
+        return _RP_VERDICT[k]
     if ws[0] == "rangesok":
         # the Python side of the agreement: structural verdict on the tree carried by the request
         src = unhex(ws[2]).decode("utf-8")
@@ -533,7 +579,7 @@ def classify(req, impl_out, model_out, failure):
         lean = model_out[4:] if model_out and model_out.startswith("bad ") else ""
         if py != lean:
             return None
-    if ws[0] == "rexpr" and impl_out != model_out:
+    if ws[0] in ("rexpr", "rprog") and impl_out != model_out:
         return None     # a listed shape is only accepted when the ranged model reproduces the tree exactly
     if failure:
         m = re.search(r"\[known:([^\]]+)\]$", failure)
@@ -1298,6 +1344,201 @@ def _rx_nontrivial(r):
 
 
 
+# ------------------------------------------------------------------------------------------------ ranged PROGRAM parser model
+#
+# Request `rprog <mode> <hex src> <tokens> <spans>`: `<tokens> <spans>` = the real token stream after the soft-keyword
+# pass (pvh_c01 `rtoks`; item syntax of `pvh_prog toks`, `\N{…}` escapes rewritten like PROG's attachments) and the
+# byte spans of those tokens — the attachment from which the Lean model `PV.C02.parseRProgram` (ranged twin of the
+# reference program parser `PV.Prog.parseProgram`) computes the range of EVERY node of a Module / Interactive /
+# Expression parse.  pvh_c01 answers the ranged canonical tree of the real parse (ctx fields removed), drv_c02 the
+# model's: byte-identical.  The oracle judges the real tree like the sweeps (structure, extents, CPython's positions).
+
+_RP_STREAMS = []        # (name, kind, exhaustive, note, [request])
+_RP_REFS = {}           # request -> (reference known?, reference tree text or None, compare with a reference?)
+_RP_VERDICT = {}        # (request, implementation answer) -> verdict (memo, filled in parallel by pre_build)
+
+RP_FINDING_PROGRAMS = [("m", s) for _, _, s in PROBES] + [
+    ("m", "match x,:\n case _: pass\n"), ("m", "match a, b,:\n case _: pass\n"), ("m", "match (a), (b):\n case _: pass\n"),
+    ("m", "while a: b; c;\n"), ("m", "for x in y:\n    a;\nelse:\n    b;\n"), ("m", "try:\n a;\nfinally:\n b;\n"),
+    ("m", "try:\n a\nexcept E:\n b;\n"), ("m", "class C:\n    x = 1;\n"), ("m", "def f():\n    return 1;\n"),
+    ("m", "with a:\n    b;\n"), ("m", "if a:\n b\nelif c:\n d;\n"), ("m", "match x:\n case 1:\n  a;\n"),
+    ("m", "async def f():\n async with a: b;\n"), ("m", "def f(a=(1), *, b=((2))): pass\n"), ("i", "if a:\n    b;\n"),
+]
+
+RP_LAYOUT = [
+    # decorated definitions start at `def` / `class` / `async`; decorators lie in front
+    "@d\ndef f(): pass\n", "@d\n@e(1)\nclass C: pass\n", "@d\nasync def f(): pass\n", "@ d . e\n\n# c\n@f()\ndef g(): pass\n",
+    "@(yield)\ndef f(): pass\n", "@a if b else c\nclass C(d): pass\n", "class C:\n    @p\n    def f(self): pass\n",
+    # compound statements end at the end of their last statement
+    "if a:\n    b\nelif c:\n    d\nelif e:\n    f\nelse:\n    g\nh\n", "if a: b\nelif c: d\n", "if a:\n  if b:\n    c\n  else:\n    d\n",
+    "while a:\n    b\nelse:\n    c\n", "for i in a: b\nelse: c\n", "async def f():\n async for x in y: pass\n else: pass\n",
+    "try:\n a\nexcept E as e:\n b\nelse:\n c\nfinally:\n d\n", "try:\n a\nexcept* (E, F) as g:\n b\nexcept* H:\n c\n",
+    "try:\n a\nfinally:\n b\n", "try:\n a\nexcept:\n b\n", "try:\n a\nexcept E:\n b\nelse:\n c\n", "try:\n a\nexcept E:\n b\nfinally:\n c\n",
+    "def f():\n    def g():\n        pass\n    return g\n", "class C:\n    class D:\n        x = 1\n", "if a:\n    pass\n\n\n# c\n\nb\n",
+    "def f(): pass  # c\n", "if a:\n    b  # c\n    # d\nc\n", "if a:\r\n    b\r\nelse:\r\n    c\r\n", "if a:\r    b\rc\r", "\ufeffif a:\n\tb\n\tc\n",
+    "if a:\n    x = (1 +\n         2)\n", "if a:\n    x = 1 + \\\n        2\n", "if a:\n    \"\"\"s\n    t\"\"\"\n", "def f(): return; \n", "def f(): a; b\n",
+    # with items
+    "with a: pass\n", "with a as b: pass\n", "with a, b as c: pass\n", "with (a): pass\n", "with (a, b): pass\n", "with (a, b,): pass\n",
+    "with (a as b): pass\n", "with (a as b, c): pass\n", "with (a, b as c, d): pass\n", "with ((a), (b) as c, (d)): pass\n", "with (a, b) as c: pass\n",
+    "with (a, b) as c, (d): pass\n", "with (a), b: pass\n", "with (a).b: pass\n", "with (yield): pass\n", "with (yield a, b): pass\n",
+    "with (x for x in y): pass\n", "with (): pass\n", "with (a := 1): pass\n", "with (a := 1, b): pass\n", "with (*a,): pass\n", "with (*a, b): pass\n",
+    "with (a, *b): pass\n", "with (\n a ,  # c\n b as c ,\n): pass\n", "with é as ü, 'ß' as ñ: pass\n", "async def f():\n async with (a as b, c): pass\n",
+    "with a as (b, c): pass\n", "with a as [b, c], d as e.f, g as h[0]: pass\n", "with (a if b else c) as d: pass\n", "with (lambda: 1): pass\n",
+    # parameters
+    "def f(): pass\n", "def f( ): pass\n", "def f(\n): pass\n", "def f(a): pass\n", "def f(a,): pass\n", "def f(a, /): pass\n", "def f(a, /, b): pass\n",
+    "def f(a, /, b, *, c): pass\n", "def f(a: int = 1, /, b: 'é' = 2, *c: x, d, e: y = 3, **g: z): pass\n", "def f(*a): pass\n", "def f(*, a): pass\n",
+    "def f(*, a=1, b): pass\n", "def f(**k): pass\n", "def f(**k,): pass\n", "def f(a, **k): pass\n", "def f(a=(1)): pass\n", "def f(a: (int) = (1)): pass\n",
+    "def f(a: (int)): pass\n", "def f(*a: (int)): pass\n", "def f(*a: *b): pass\n", "def f(**k: (int)): pass\n", "def f(\n a,  # c\n b=1,\n *,\n c,\n): pass\n",
+    "def f(a = 1 , b : int = 2 ,) -> (r): pass\n", "def f(a=lambda b=1: b): pass\n", "def é(ü, *ß, ñ=1, **Ω): pass\n", "def f[T](a: T) -> T: pass\n",
+    "def f[T: int, *U, **V](a): pass\n", "class C[T, *U](a, k=1): pass\n", "class C(): pass\n", "class C(a, *b, k=1, **c): pass\n", "class C(a,): pass\n",
+    "type X = int\n", "type X[T] = list[T]\n", "type X[T: (int), *U, **V] = T\n", "type = 1\ntype X = type\n",
+    # imports, aliases
+    "import a\n", "import a.b.c\n", "import a as b\n", "import a.b as c, d, e.f\n", "import a . b as c\n", "from a import b\n", "from a import b as c, d\n",
+    "from a import (b)\n", "from a import (b as c, d,)\n", "from a import (\n b,  # c\n c as d,\n)\n", "from . import a\n", "from .. import a\n", "from ... import a\n",
+    "from .... import a\n", "from .a import b\n", "from . a . b import c\n", "from a import *\n", "from . import *\n", "from é import ü as ñ\n",
+    # simple statements
+    "pass\n", "break\n", "continue\n", "return\n", "return a\n", "return a,\n", "return a, b\n", "return (a)\n", "del a\n", "del a,\n", "del a, b\n", "del (a), [b]\n",
+    "raise\n", "raise a\n", "raise a from b\n", "raise (a) from (b)\n", "assert a\n", "assert a, b\n", "assert (a), (b)\n", "global a\n", "global a, b\n", "nonlocal a, b\n",
+    "a\n", "a,\n", "a, b\n", "(a)\n", "a = 1\n", "a = b = 1\n", "a = b = c, = 1,\n", "(a) = (b) = (1)\n", "a, b = c\n", "a += 1\n", "a += b,\n", "a //= (b)\n", "(a) **= 1\n",
+    "a: int\n", "a: int = 1\n", "(a): int = 1\n", "a.b: int\n", "a[0]: int = 1\n", "a: (int) = (1)\n", "a = yield\n", "a = yield b\n", "a += yield b\n", "a: int = yield\n",
+    "yield\n", "yield a\n", "yield a, b\n", "yield from a\n", "yield (a)\n", "a = yield from (b)\n", "x = 1; y = 2\n", "x = 1; y = 2;\n", "x = 1 ;  y = 2 ; \n",
+    "*a, b = c\n", "a = *b, c\n", "*a,\n", "a = b if c else d\n", "lambda: 1\n", "x = lambda: 1\n", "f(lambda : 0, lambda: (yield))\n",
+    # match
+    "match x:\n case 1: pass\n", "match x:\n case a: pass\n", "match x:\n case _: pass\n", "match x:\n case (a): pass\n", "match x:\n case ((a)): pass\n",
+    "match x:\n case (a,): pass\n", "match x:\n case a,: pass\n", "match x:\n case a, b: pass\n", "match x:\n case a, b,: pass\n", "match x:\n case (a, b): pass\n",
+    "match x:\n case [a, b]: pass\n", "match x:\n case []: pass\n", "match x:\n case (): pass\n", "match x:\n case [a, *b]: pass\n", "match x:\n case [*_]: pass\n",
+    "match x:\n case *a, b: pass\n", "match x:\n case {}: pass\n", "match x:\n case {1: a}: pass\n", "match x:\n case {1: a,}: pass\n", "match x:\n case {**r}: pass\n",
+    "match x:\n case {**r,}: pass\n", "match x:\n case {1: a, 'b': c, **r}: pass\n", "match x:\n case {a.b: c, None: d, True: e, -1: f, 1+2j: g}: pass\n",
+    "match x:\n case C(): pass\n", "match x:\n case C(a): pass\n", "match x:\n case C(a,): pass\n", "match x:\n case C(a, b=c): pass\n", "match x:\n case C(a=b,): pass\n",
+    "match x:\n case a.b.C(d, e=f, g=h): pass\n", "match x:\n case a.b: pass\n", "match x:\n case a.b.c: pass\n", "match x:\n case 1 | 2: pass\n",
+    "match x:\n case 1 | (2 | 3): pass\n", "match x:\n case (1 | 2) as y: pass\n", "match x:\n case a as b: pass\n", "match x:\n case [a as b, c] as d: pass\n",
+    "match x:\n case -1: pass\n", "match x:\n case 1+2j: pass\n", "match x:\n case -1-2j: pass\n", "match x:\n case 'a' 'b': pass\n", "match x:\n case b'a': pass\n",
+    "match x:\n case None | True | False: pass\n", "match x:\n case a if b: pass\n", "match x:\n case a if (b := c): pass\n", "match x:\n case a, b if c: pass\n",
+    "match x:\n case 1:\n  pass\n case 2:\n  pass\n", "match x, y:\n case a, b: pass\n", "match x,:\n case a,: pass\n", "match (x):\n case a: pass\n", "match (x, y):\n case a: pass\n",
+    "match *x, y:\n case a: pass\n", "match x := y:\n case a: pass\n", "match [x]:\n case a: pass\n", "match x:\n case a:\n  match y:\n   case b: pass\n",
+    "match x:\n case (\n  a,  # c\n  b,\n ): pass\n", "match x:\n case é | 'ü': pass\n", "match = 1\nmatch[0]\ncase = match\n",
+    # module layout
+    "", "\n", "\n\n", "# c\n", "# c", "  \n", "x", "x\n\n\n", "\n\n  \nx = 1\n\n\n", "\ufeff", "\ufeffx\n", "\ufeff\n# c\nx\n", "x = 1 # c", "\\\nx\n", "x = 1\\\n", "\"\"\"d\"\"\"\nx\n",
+    "x\r\ny\r\n", "x\ry\r", "x\n\r\ny\r", "if a:\n  b\n\n  # c\n\n  c\nd", "if a:\n  b\n # c\nd\n", "if a:\n  b\n# c\n  c\n", "def f():\n\n  a\n\n\n  b\n",
+]
+
+RP_EXPRESSIONS = ["x", " x ".strip(), "(a,\n b)", "f(é)", "a if b else c\n\n", "[x for x in y]  # c", "a,", "a, b,", "*a, b", "lambda: 1", "f'{a}' 'b'",
+                  "x\n", "x\n\n\n", "x  \n  \n", "(yield)", "\ufeffx", "a\r\n", "(\n a\n)\r\n\r\n"]
+
+
+def _rp_req(mode, src, a):
+    t, sp = a.split(" ")
+    return "rprog %s %s %s %s" % (mode, hexs(src), prog.fix_attachment(t), sp)
+
+
+def rp_families(ctx):
+    """[(stream name, kind, exhaustive, note, [(mode, source, reference text or None, compare with a reference?)])]"""
+    q = ctx.quick
+    fams = []
+    corpus = list(dict.fromkeys(RP_FINDING_PROGRAMS + prog.corpus_items() + [("m", s) for s in RP_LAYOUT] +
+                                [("i", s) for s in RP_LAYOUT[::3]] + [("e", s) for s in RP_EXPRESSIONS]))
+    fams.append(("corpus", "corpus", False,
+                 "one program per listed finding that concerns statements, PROG's corpus (every statement, pattern, "
+                 "parameter-list, with-item, import, type-parameter and decorator form; Module / Interactive / Expression "
+                 "mode), hand-written layouts: decorated definitions, every compound statement with every clause "
+                 "combination, trailing `;`, comments / blank lines / CR / CRLF / BOM / tabs / continuation lines around "
+                 "blocks, every with-item alternative, every parameter-list section, imports, match subjects and "
+                 "patterns, empty and comment-only modules", [(m, s, None, True) for m, s in corpus]))
+    sh = shapes.all_shapes()
+    fams.append(("directed-shapes", "exhaustive", True,
+                 "tools/shapes.py: every combination of parameter-list sections for def / async def / lambda, with "
+                 "statements over every expression kind in every item position and parenthesisation, rare productions",
+                 [("m", s, None, True) for s in sh]))
+    nm, ni, ne = (3000, 800, 800) if q else (40000, 10000, 8000)
+    opts = {"depth": 3, "pep695": False}
+    gm, _ = refsweep.generated(ctx, "rp-m", nm, "m", opts, ranges=True)
+    gi, _ = refsweep.generated(ctx, "rp-i", ni, "i", opts, ranges=True)
+    ge, _ = refsweep.generated(ctx, "rp-e", ne, "e", dict(opts, depth=4), ranges=True)
+    fams.append(("generated-module", "random", False,
+                 "tools/gen_program.py with layout noise (CR / CRLF line ends, tabs and odd indents, comments, blank "
+                 "lines, BOM, continuation lines, missing final newline), finding shapes NOT excluded (the model mirrors "
+                 "them, the oracle names them), Module mode, CPython positions as the reference",
+                 [("m", t, r, True) for t, e, r in gm if not e]))
+    fams.append(("generated-interactive", "random", False, "the same generator, Interactive mode",
+                 [("i", t, r, True) for t, e, r in gi if not e]))
+    fams.append(("generated-expression", "random", False, "generated expression lists, Expression mode",
+                 [("e", t, r, True) for t, e, r in ge if not e]))
+    gp, _ = refsweep.generated(ctx, "rp-pep695", 600 if q else 6000, "m", {"depth": 3, "pep695": True})
+    fams.append(("generated-pep695", "random", False,
+                 "programs with PEP 695 forms (type parameters, `type` statements): structure and extent rules only, no "
+                 "CPython positions exist", [("m", t, None, False) for t, e, r in gp]))
+    std = prog.stdlib_items(max_bytes=20000 if q else 60000, limit=120 if q else 600, rng=ctx.rng("rp-stdlib"))
+    fams.append(("stdlib", "corpus", False, "CPython 3.11 standard-library files, Module mode",
+                 [("m", s, None, True) for _, s in std]))
+    return fams
+
+
+def judge_rprog(req, out, ref_known, ref, want_ref):
+    """the ranged tree of the whole parse (ctx fields removed): same rules as `judge`"""
+    if out.startswith("(err") or out == "stale-tokens":
+        return None
+    if not out.startswith("(Mod"):
+        return "implementation " + out[:60]
+    ws = req.split()
+    mode = ws[1]
+    src = unhex(ws[2]).decode("utf-8")
+    rt = None
+    if want_ref:
+        if not ref_known:
+            ref = refsweep.reference(src, mode, None, ranges=True)
+        if ref is None:
+            return None                 # CPython rejects the text: not a valid program, outside the property's quantifier
+        rt = _drop_ctx(pyref.sexp(ref))
+    return judge_trees(src.encode("utf-8"), pyref.sexp(out), rt)
+
+
+def _judge_rp_chunk(items):
+    return [judge_rprog(*it) for it in items]
+
+
+def build_rprog_streams(ctx):
+    """sources -> `rtoks` (real tokens + spans) -> `rprog` requests; texts the real lexer or parser rejects are dropped
+    (the property quantifies over successfully parsed text); verdicts of the oracle are pre-computed in parallel"""
+    rc, out, hbin = core.cargo_build(HARNESS["bin"], HARNESS["features"])
+    if rc != 0:
+        return [("harness build for the ranged-program-model streams", False, out[-300:])]
+    del _RP_STREAMS[:]
+    total = dropped = 0
+    todo = []
+    for name, kind, exh, note, items in rp_families(ctx):
+        pre = core.run_lines([hbin], ["rtoks %s %s" % (m, hexs(s)) for m, s, _, _ in items], jobs=8)
+        reqs, meta = [], []
+        for (m, s, ref, want), a in zip(items, pre):
+            if a.startswith("(") or " " not in a:
+                continue
+            reqs.append(_rp_req(m, s, a))
+            meta.append((ref, want))
+        outs = core.run_lines([hbin], reqs, jobs=8)
+        keep = []
+        for r, o, (ref, want) in zip(reqs, outs, meta):
+            if o.startswith("(err"):
+                continue
+            keep.append(r)
+            _RP_REFS[r] = (ref is not None, ref, want)
+            if (r, o) not in _RP_VERDICT:
+                todo.append((r, o, ref is not None, ref, want))
+        dropped += len(items) - len(keep)
+        total += len(keep)
+        _RP_STREAMS.append((name, kind, exh, note, keep))
+    if todo:
+        chunks = [todo[i:i + 100] for i in range(0, len(todo), 100)]
+        with ProcessPoolExecutor(refsweep.NPROC) as ex:
+            for ch, vs in zip(chunks, ex.map(_judge_rp_chunk, chunks)):
+                for it, v in zip(ch, vs):
+                    _RP_VERDICT[(it[0], it[1])] = v
+    return [("requests of the ranged-program-model streams (real tokens and spans attached)", total > 0,
+             f"{total} requests; {dropped} texts rejected by the real lexer/parser left out")]
+
+
+def _rp_nontrivial(r):
+    return len(r.split()[3]) > 2
+
+
 def pre_build(ctx):
     """obtain the real parser's trees (with ranges) for the Lean correspondence stream"""
     rc, out, hbin = core.cargo_build(HARNESS["bin"], HARNESS["features"])
@@ -1316,7 +1557,7 @@ def pre_build(ctx):
         if o.startswith("(Mod"):
             _LEAN_ITEMS.append((m, s, o))
     res = [("real trees for the rangesOk correspondence stream", len(_LEAN_ITEMS) > 0, f"{len(_LEAN_ITEMS)} trees")]
-    return res + build_rexpr_streams(ctx)
+    return res + build_rexpr_streams(ctx) + build_rprog_streams(ctx)
 
 
 def _sweep(name, items, mode, note, kind="random", with_ref=True):
@@ -1368,6 +1609,12 @@ def streams(ctx):
     for name, kind, exh, note, rreqs in _RX_STREAMS:
         out.append(Stream("ranged-parser-model-" + name, rreqs, kind=kind, exhaustive=exh, harness=RX_HARNESS,
                           nontrivial=_rx_nontrivial, note=note))
+    # the ranged twin of the reference PROGRAM parser (Lean) against the real parser, every range of every node
+    if not _RP_STREAMS:
+        build_rprog_streams(ctx)
+    for name, kind, exh, note, rreqs in _RP_STREAMS:
+        out.append(Stream("ranged-program-model-" + name, rreqs, kind=kind, exhaustive=exh, harness=HARNESS,
+                          nontrivial=_rp_nontrivial, note=note))
     # sweep with CPython positions
     opts = {"depth": 3, "pep695": False, "range_clean": True}
     nm, ni, ne = (4000, 1000, 1500) if q else (30000, 8000, 12000)
